@@ -8,7 +8,7 @@ EXTENDS Dbg, Json, IOUtils, TLC
 
 Rec == ndJsonDeserialize(IOEnv.TRACE)
 
-VARIABLE l
+VARIABLES l, lc      \* position in the trace; abstract state of the running life-cycle history (table, current graph)
 
 NodesOK(ns) == \A n \in 1..Len(ns) : \A i \in 1..Len(ns[n].s) : ns[n].s[i] \in Base
 
@@ -33,7 +33,7 @@ RecompressFails(e) ==
   LET K == e.K  st == e.st  g == e.g
       cens == {c + 1 : c \in SetOf(e.censor)}
       valid == (1..Len(g)) \ cens
-  IN IF ~WellFormedGraph(K, st, g) THEN {}                       \* not a valid graph: outside the quantifier
+  IN IF ~WellFormedGraph(K, st, g) \/ ~SymmetricGraph(K, st, g) THEN {}   \* not a valid graph: outside the quantifier
      ELSE IF e.panic # "" THEN {"PANIC"}
      ELSE IF ~NodesOK(e.out) THEN {"V1"}
      ELSE LET T0 == TableOfGraph(K, st, e.mode, g)
@@ -284,6 +284,54 @@ IndexFails(e) ==
                  ELSE (IF pr.dir = "R" THEN pr.first = pr.k ELSE pr.last = pr.k))
   IN {c \in {"X1", "X2", "X3"} : ~(CASE c = "X1" -> X1 [] c = "X2" -> X2 [] c = "X3" -> X3)}
 
+\* ---------------------------------------------------------------- life-cycle histories (C01 C02 C03 C09)
+\* One real graph object is carried from step to step; the abstract state lc = [K, st, mode, T, G] carries the table it
+\* was built from and the graph it currently is.  Every step is judged against the CARRIED state: `cur` (the projection
+\* of the real object just before the call) must be the graph the previous step left behind (frame condition STATE).
+TableOfRows(tab) ==
+  LET keys == {tab[i].k : i \in 1..Len(tab)}
+      Idx(k) == CHOOSE i \in 1..Len(tab) : tab[i].k = k
+  IN [k \in keys |-> [l |-> SetOf(tab[Idx(k)].l), r |-> SetOf(tab[Idx(k)].r), d |-> tab[Idx(k)].d]]
+
+LcFails(e) ==
+  IF e.panic # "" THEN {"PANIC"} ELSE
+  LET K == lc.K  st == lc.st  G == lc.G IN
+  CASE e.op = "lc_compress" ->
+         IF ~NodesOK(e.nodes) THEN {"V1"} ELSE GraphFails(K, st, lc.mode, lc.T, e.nodes)
+    [] e.op = "lc_query" ->
+         LET E1 == \A i \in 1..Len(e.probes) :
+                     LET pr == e.probes[i]  want == Lookup(K, st, G, pr.k, pr.dir) IN
+                     IF pr.ans = <<>> THEN want = {} ELSE want = {Tup3(pr.ans)}
+             E2 == \A i \in 1..Len(e.edges) :
+                     LET x == e.edges[i] IN {Tup3(x.e[j]) : j \in 1..Len(x.e)} = EdgeSetOf(K, st, G, x.n + 1, x.dir)
+         IN (IF e.cur = G THEN {} ELSE {"STATE"}) \cup
+            (IF e.cur # G THEN {} ELSE {c \in {"E1", "E2"} : ~(CASE c = "E1" -> E1 [] c = "E2" -> E2)})
+    [] e.op = "lc_fixexts" ->
+         LET valid == {v + 1 : v \in SetOf(e.valid)}
+             OKT(t) == ~e.use_valid \/ t[1] \in valid
+             Keep(n, d) == {b \in BasesOf(G[n], d) : \E t \in Lookup(K, st, G, ExtK(TermK(K, G[n], d), d, b), d) : OKT(t)}
+             P3 == /\ Len(e.after) = Len(G)
+                   /\ \A n \in 1..Len(G) : /\ e.after[n].s = G[n].s /\ e.after[n].d = G[n].d
+                                             /\ SetOf(e.after[n].l) = Keep(n, "L") /\ SetOf(e.after[n].r) = Keep(n, "R")
+         IN (IF e.cur = G THEN {} ELSE {"STATE"}) \cup (IF e.cur # G \/ P3 THEN {} ELSE {"P3"})
+    [] e.op = "lc_recompress" ->
+         LET cens == {c + 1 : c \in SetOf(e.censor)}
+             valid == (1..Len(G)) \ cens
+         IN (IF e.cur = G THEN {} ELSE {"STATE"}) \cup
+            (IF e.cur # G \/ ~WellFormedGraph(K, st, G) \/ ~SymmetricGraph(K, st, G) THEN {}
+             ELSE IF ~NodesOK(e.out) THEN {"V1"}
+             ELSE LET T0 == TableOfGraph(K, st, lc.mode, G)
+                      surv == UNION {KmersOfNode(K, st, G[n]) : n \in valid}
+                  IN GraphFails(K, st, lc.mode, Prune(st, T0, surv), e.out) \cup (IF e.dangling = 0 THEN {} ELSE {"DANGLING"}))
+    [] OTHER -> {"UNKNOWN-OP"}
+
+LcAfter(e) ==
+  CASE e.op = "begin" -> [K |-> e.K, st |-> e.st, mode |-> e.mode, T |-> TableOfRows(e.table), G |-> <<>>]
+    [] e.op = "lc_compress" /\ e.panic = "" -> [lc EXCEPT !.G = e.nodes]
+    [] e.op = "lc_fixexts" /\ e.panic = "" -> [lc EXCEPT !.G = e.after]
+    [] e.op = "lc_recompress" /\ e.panic = "" -> [lc EXCEPT !.G = e.out]
+    [] OTHER -> lc
+
 \* ---------------------------------------------------------------- machine
 Fails(e) ==
   CASE e.op = "compress"   -> CompressFails(e)
@@ -298,15 +346,18 @@ Fails(e) ==
     [] e.op = "export"     -> ExportFails(e)
     [] e.op = "serde"      -> SerdeFails(e)
     [] e.op = "index"      -> IndexFails(e)
+    [] e.op = "begin"      -> {}
+    [] e.op \in {"lc_compress", "lc_query", "lc_fixexts", "lc_recompress"} -> LcFails(e)
     [] e.op = "timeout"    -> {"TIMEOUT"}
     [] OTHER -> {"UNKNOWN-OP"}
 
-Init == l = 1
+Init == l = 1 /\ lc = [K |-> 0, st |-> FALSE, mode |-> "sum", T |-> <<>>, G |-> <<>>]
 Next == /\ l <= Len(Rec)
         /\ l' = l + 1
         /\ LET f == Fails(Rec[l]) IN
              IF f = {} THEN TRUE ELSE PrintT(<<"FAIL", l, Rec[l].case, Rec[l].op, f>>)
-Spec == Init /\ [][Next]_l
+        /\ lc' = LcAfter(Rec[l])
+Spec == Init /\ [][Next]_<<l, lc>>
 \* a silently truncated run must not count as a pass
 Complete == PrintT(<<"DONE", TLCGet("stats").diameter - 1, Len(Rec)>>)
 =============================================================================
